@@ -14,8 +14,8 @@ Open Scope Z_scope. Open Scope list_scope.
 (* ------------------------------------------------------------------ constants *)
 (* Uint::from(limb) / BoxedUint::from_limb_like: limbs[0] = limb on the zero value of that width *)
 Definition g_from_limb (n : nat) (l : Z) : list Z := match n with O => [] | S k => l :: zeros k end.
-(* BoxedUint::max: vec![Limb::MAX; limbs_for_precision(bits)].into() *)
-Definition g_max_boxed (bits : Z) : list Z := vec_into_boxed (maxs (limbs_for_precision bits)).
+(* BoxedUint::max: vec![Limb::MAX; limbs_for_precision(bits).max(1)].into()  (the `.max(1)`: repair of finding F33) *)
+Definition g_max_boxed (bits : Z) : list Z := vec_into_boxed (maxs (Nat.max (limbs_for_precision bits) 1)).
 (* a limb count passed as a scalar *)
 Definition g_n (i : nat) (a : list (list Z)) : nat := Z.to_nat (sarg i a).
 Definition g_len (i : nat) (a : list (list Z)) : nat := length (arg i a).
@@ -148,11 +148,11 @@ Definition gsp_limb_de (bs : list Z) : outcome :=
 Definition ops_glue_spec : list (string * opfn) := [
   ("glue.zero", fun _ a => Val [to_limbs (g_n 0 a) 0]);
   ("glue.one", fun _ a => gsp_nonempty (g_n 0 a) (Val [to_limbs (g_n 0 a) 1]));
-  (* "the value 2^bits_precision - 1" at the requested precision rounded up to whole limbs; a request of 0 bits is
-     outside the documented domain (the code returns a 64-bit ZERO, see the report of C15r) *)
+  (* "the value 2^bits_precision - 1" at the requested precision rounded up to whole limbs; every BoxedUint has at least
+     one limb, so a request of 0 bits yields the one-limb maximum *)
   ("glue.max_boxed", fun _ a =>
-     let p := sarg 0 a in if p <=? 0 then Unsupported else
-     let m := Z.to_nat ((p + 63) / 64) in Val [to_limbs m (Bn m - 1)]);
+     let p := sarg 0 a in if p <? 0 then Unsupported else
+     let m := Nat.max 1 (Z.to_nat ((p + 63) / 64)) in Val [to_limbs m (Bn m - 1)]);
   ("glue.nlimbs", fun _ a => Val [[Z.of_nat (g_len 0 a)]]);
   (* precision in bytes = precision in bits / 8 *)
   ("glue.bytes_precision", fun _ a => Val [[(64 * Z.of_nat (g_len 0 a)) / 8]]);
